@@ -186,4 +186,41 @@ theorem union_ne_roundtrip (rs : List RC) (h : UnionText rs) (v : Version)
     have hva : (RC.ver v).allows p = true ↔ vk p = vk v := RC.ver_allows_iff v p hvwf hp hr1
     cases hb : b <;> cases ha : anyAllows rs p <;> simp_all
 
+/-! ### every non-empty constraint not spelt with a wildcard -/
+
+/-- not spelt with a wildcard: no member prints as `==X.*` and the union does not print as `!=X.*` -/
+def PlainSpelling : VC → Prop
+  | .empty => True
+  | .single m => m.plainText
+  | .union rs => (∀ m ∈ rs, m.plainText) ∧ VC.excludedWildcard rs = none
+
+/-- the text round trip for single versions, plain ranges, `*`, `||` joins and `!=V` -/
+theorem VC.text_roundtrip (c : VC) (hwf : c.WF) (hne : c.isEmpty = false)
+    (htidy : ∀ m ∈ c.flatten, m.Tidy) (htext : ∀ e ∈ c.bounds, TextOK e)
+    (hreg : ∀ rs, c = .union rs → RegB c.bounds) (hplain : PlainSpelling c) :
+    ∃ s c', c.toStr = .ok s ∧ VParser.parseConstraint s = .ok c' ∧
+      ∀ p, p.wf = true → Regular (c.bounds ++ c'.bounds) p → c'.allows p = c.allows p := by
+  cases c with
+  | empty => simp [VC.isEmpty] at hne
+  | single m =>
+    obtain ⟨s, h1, h2⟩ := single_roundtrip m hwf.1 hwf.2 (htidy m (by simp [VC.flatten])) htext hplain
+    exact ⟨s, _, h1, h2, fun _ _ _ => rfl⟩
+  | union rs =>
+    have hU : UnionText rs := ⟨hwf, fun m hm => htidy m (by simpa [VC.flatten] using hm),
+      fun m hm e he => htext e (List.mem_flatMap.2 ⟨m, hm, he⟩), hreg rs rfl⟩
+    obtain ⟨hok, hN⟩ := unionOK_of_reg hU.reg rs hU.member hwf.2.2.1
+    obtain ⟨inv, hinv⟩ := inverted_total rs hok hN
+    have hxs : ∃ o, VC.excludedSingleVersion rs = .ok o := by
+      unfold VC.excludedSingleVersion
+      simp only [hinv, bind, Except.bind, pure, Except.pure]
+      split <;> exact ⟨_, rfl⟩
+    obtain ⟨o, ho⟩ := hxs
+    cases o with
+    | none =>
+      obtain ⟨s, c', h1, h2, _, _, h5⟩ := union_join_roundtrip rs hU hplain.1 ho hplain.2
+      exact ⟨s, c', h1, h2, fun p hp hr => h5 p hp (hr.mono (by intro e he; simp [VC.bounds, boundsOf] at he ⊢; exact Or.inl he))⟩
+    | some v =>
+      obtain ⟨s, h1, h2, _, h4⟩ := union_ne_roundtrip rs hU v ho
+      exact ⟨s, _, h1, h2, fun p hp hr => h4 p hp (hr.mono (by intro e he; simp [VC.bounds, boundsOf] at he ⊢; exact Or.inl he))⟩
+
 end Poetry
